@@ -217,6 +217,20 @@ Proof.
     match goal with H : (_, _) = (_, _) |- _ => inversion H; subst; vm_compute; intros; discriminate end.
 Qed.
 
+(* batches are not regions: the keys of one call may travel in several requests even inside one region (batch
+   size limit); the store's answer is any subset of the requested keys locked before the failing batch.  A
+   multi-key call failing with write conflict after earlier batches succeeded rolls all its keys back
+   (instance of C06_failed_lockkeys_releases_call; seeded change C06-7 skips the rollback when one region
+   served all batches) *)
+Definition partial_batches_run : list ev :=
+  [ELock [1; 2; 3] false false false 10 (mkLO false false [1; 2] [] 0 (Some FConflict)); ERollback; ERun 0].
+Example C06_partial_batches_in_one_region :
+  wf_run (init true) partial_batches_run /\
+  (let s := run (init true) (firstn 1 partial_batches_run) in
+   map fst (store s) = [1; 2] /\ tasks s = [TPessRb [1; 2; 3] 10] /\ flags s = []) /\
+  store (run (init true) partial_batches_run) = [].
+Proof. split; [wf_solve|]. vm_compute. auto. Qed.
+
 (* ---- regression replays of the fixed findings F19 / F19b ---- *)
 Definition ok_lock (ks : list key) : lock_out := mkLO false false ks [] 0 None.
 
